@@ -340,6 +340,23 @@ func ruleC06(w *World) {
 		w.undecided("C06.R1", "anchor:cache-field", T.Obj().Pos(), "unresolved anchor: cached signature field")
 		return
 	}
+	// R6: the pool invariants the reconstruction relies on (enoughShares is `len(shares) == t+1`, so a pool that can
+	// grow past t+1 entries never reports enough again; one share per signer): the sequential facts of C18.R4,
+	// evaluated inside the critical section that performs the update
+	w.floor("C06.R6", 3)
+	{
+		saved := w.out
+		tmp := &Out{Floors: map[string]int{}, Stats: map[string]int{}}
+		w.out = tmp
+		ruleC18(w)
+		w.out = saved
+		for _, o := range tmp.Obligations {
+			if o.Rule == "C18.R4" {
+				o.Rule = "C06.R6"
+				w.out.Obligations = append(w.out.Obligations, o)
+			}
+		}
+	}
 	ts := w.method(T, "ThresholdSignature")
 	if ts == nil {
 		w.undecided("C06.R1", "anchor:ThresholdSignature", token.NoPos, "unresolved anchor")
